@@ -136,6 +136,11 @@ pub struct SpanContext {
     pub sampled: bool,
 }
 
+// `from_str_radix` also accepts a leading `+`, which no hexadecimal field may carry.
+fn is_hex(field: &str) -> bool {
+    field.bytes().all(|b| b.is_ascii_hexdigit())
+}
+
 impl SpanContext {
     /// Creates a new `SpanContext` with the given [`TraceId`] and [`SpanId`].
     ///
@@ -288,7 +293,9 @@ impl SpanContext {
             parts.next(),
             parts.next(),
         ) {
-            (Some("00"), Some(trace_id), Some(span_id), Some(sampled), None) => {
+            (Some("00"), Some(trace_id), Some(span_id), Some(sampled), None)
+                if is_hex(trace_id) && is_hex(span_id) && is_hex(sampled) =>
+            {
                 let trace_id = u128::from_str_radix(trace_id, 16).ok()?;
                 let span_id = u64::from_str_radix(span_id, 16).ok()?;
                 let sampled = u8::from_str_radix(sampled, 16).ok()? & 1 == 1;
